@@ -37,7 +37,10 @@ def permeance(spec):
 def program(spec):
     if spec is None:
         return None
-    return TemperatureProgram(coefficients=list(spec["coefficients"]), type=spec["type"])
+    co = list(spec["coefficients"])
+    if spec.get("array"):
+        co = numpy.array(co, dtype=float)
+    return TemperatureProgram(coefficients=co, type=spec["type"])
 
 
 def conditions(spec):
